@@ -40,6 +40,40 @@ ADVERSARIAL = ["a\rb", "x\ry;z", "BI\rBroad;WUGSC", "a\nb", "1\r2", "A\rC", "é"
                "ßes", "\U0001F600", "À", "true", "ı", "İ"]
 
 
+KIND_BOUNDARY = {
+    "dna": ["A-C", "--", "-T", "AC-", "-", "A", "N", "ACGTN", "acgt", "a", "A C", "", "ACGU", "A;C", "AC\u0410"],
+    "int": ["0", "1", "-1", "00", "01", "-0", "+1", "1.0", "1e3", " 1", "1 ", "1_0", "", "0x1", "٣", "9" * 30, "-" + "9" * 30],
+    "entrez": ["0", "00", "-0", "+0", " 0", "0 ", "0_0", "1", "-1", "", "0.0"],
+    "strand": ["1", "-1", "+1", "0", "2", "-2", "", "01", "1.0", " 1"],
+    "float": ["0", "1.", ".5", "1e5", "1E-3", "inf", "-inf", "nan", "NaN", "1_0.5", "", ".", "e5", "1e", "0x1p3", "1,5", "٣.٥"],
+    "uuid": ["12345678-1234-5678-1234-567812345678", "12345678-1234-5678-1234-56781234567", "123456781234567812345678123456789",
+             "{12345678-1234-5678-1234-567812345678", "12345678-1234-5678-1234-567812345678}", "urn:uuid:12345678123456781234567812345678",
+             "1234567-81234-5678-1234-567812345678", "g2345678-1234-5678-1234-567812345678", "", "-" * 36],
+    "canonical": ["", "YES", "yes", "Yes", "Y", "NO", "no", "True", "1", " yes", "yes "],
+    "bool": ["True", "False", "true", "FALSE", "T", "F", "1", "0", "", "yes", " True"],
+    "text": ["", " ", "a", "0", "None", "#", "a;b", "\u00e9", "  x  "],
+    "textorint": ["1", "01", "X", "MT", "", "0", "-0", "1.0", "chr1", "+1", " 1"],
+    "enum": ["", "Null", "null", "NULL", "nULL", "None", "none", "Yes", "YES", "yes", "No", "1", "0", "2", "Y", "N", "y", "n", "+", "-", "Unknown", "unknown"],
+    "seq": ["", ";", ";;", "a", "a;", ";a", "a;;b", "a;b;c", "1;2", "1;;2", "1;a", "Null", "null;Yes", "Yes;No;", "0;1;", "Other;454", "454;bogus"],
+}
+
+
+def kind_boundary(rng, d):
+    if d is None:
+        return rng.choice(BOUNDARY)
+    k = d["k"]
+    if k == "mustnull":
+        return kind_boundary(rng, d["base"])
+    lst = KIND_BOUNDARY.get(k)
+    if k == "enum":
+        ms = SP.spec()["enums"][d["enum"]]
+        n, v = rng.choice(ms)
+        lst = list(lst) + [n, v, v.lower(), v.upper(), n.lower(), v + " ", " " + v, v[:-1], v + "x"]
+    if not lst:
+        return rng.choice(BOUNDARY)
+    return rng.choice(lst)
+
+
 def valid_text(rng, d, top=True):
     k = d["k"]
     if top:
@@ -113,7 +147,7 @@ def some_text(rng, d, stream):
     if stream == "valid" and d is not None:
         return valid_text(rng, d)
     if stream == "boundary":
-        return rng.choice(BOUNDARY)
+        return kind_boundary(rng, d) if rng.random() < 0.6 else rng.choice(BOUNDARY)
     if stream == "defect" and d is not None:
         return defect(rng, valid_text(rng, d))
     if stream == "adversarial":
@@ -798,12 +832,19 @@ def oracle_c05_write(case, obs):
 
 
 # ---------------------------------------------------------------- sequences offered to one writer (direct or sorting)
-def gen_writeseq(rng):
-    annot = rng.choice(ANNOTS)
+def gen_writeseq(rng, annots=None):
+    annot = rng.choice(annots or ANNOTS)
     recs = []
     for _ in range(rng.randint(2, 4)):
         c = gen_write(rng, annots=[annot], strict_share=1.0)
         recs.append({"slots": c["slots"], "stream": c["stream"], "hit": c["hit"]})
+    # sometimes: re-offer an earlier (accepted) record object after changing one of its values in place
+    if rng.random() < 0.35:
+        k = rng.randrange(len(recs))
+        cols = SP.layout(annot)["columns"]
+        gl = [i for i, (n, _) in enumerate(cols) if n in SP.GERMLINE6] or list(range(len(cols)))
+        i = rng.choice(gl if rng.random() < 0.5 else list(range(len(cols))))
+        recs.append({"reuse": k, "set": [[i, rng.choice([[4, "A"], [2, 5], [4, "a\tb"], [1, 1], [4, ""], [0], [9]])]], "slots": [], "stream": "reuse", "hit": [i]})
     return {"kind": "writeseq", "annot": annot, "records": recs, "sort": rng.random() < 0.6, "mode": 1,
             "stream": "seq-" + ("sort" if recs and rng.random() < 2 else "direct"), "hit": [i for i, r in enumerate(recs) if r["hit"]]}
 
@@ -823,13 +864,30 @@ def run_writeseq(case):
     writer = MafWriter.from_fd(buf, header, validation_stringency=ValidationStringency.Strict, assume_sorted=not case["sort"])
     start = len(buf.text())
     outcomes = []
-    for r in case["records"]:
+    built = []
+    expect_refusal = []
+    for ri, r in enumerate(case["records"]):
         sub = {"annot": case["annot"], "slots": r["slots"]}
-        try:
-            rec = build_api_record(sub)
-        except Exception as e:
-            outcomes.append("unbuildable")
-            continue
+        if "reuse" in r:
+            rec = built[r["reuse"]] if r["reuse"] < len(built) else None
+            if rec is None:
+                outcomes.append("unbuildable")
+                built.append(None)
+                continue
+            for i, v in r["set"]:
+                if i < len(rec) and rec[i] is not None:
+                    rec[i].value = H.dec_value(v)       # in place, the record object is the one offered before
+                    # would this value be refused in a freshly built record?
+                    d = SP.layout(case["annot"])["columns"][i][1] if i < len(SP.layout(case["annot"])["columns"]) else None
+            built.append(rec)
+        else:
+            try:
+                rec = build_api_record(sub)
+            except Exception as e:
+                outcomes.append("unbuildable")
+                built.append(None)
+                continue
+            built.append(rec)
         before = len(buf.text())
         try:
             writer += rec
@@ -863,7 +921,13 @@ def run_writeseq(case):
         whole = "ok:%d" % n
     except Exception as e:
         whole = "failed:" + type(e).__name__
-    return {"cmp": {"seq": True}, "extra": {"outcomes": outcomes, "closed": closed, "n_data_lines": len(data), "reread": reread, "whole": whole}}
+    names = scheme.column_names()
+    germ = []
+    for ln in data:
+        f = ln.split("\t")
+        germ.append([[g, f[names.index(g)]] for g in SP.GERMLINE6 if g in names and names.index(g) < len(f) and f[names.index(g)] != ""])
+    return {"cmp": {"seq": True}, "extra": {"outcomes": outcomes, "closed": closed, "n_data_lines": len(data), "reread": reread,
+                                             "whole": whole, "germline_nonnull": germ}}
 
 
 def oracle_c06_seq(case, obs):
